@@ -332,15 +332,18 @@ fn main() {
 }
 
 func TestSemPrivateArray(t *testing.T) {
-	txt := compileWGSL(t, `
+	src := `
 var<private> pa: array<f32, 2> = array<f32, 2>(1.0, 2.0);
 @group(0) @binding(0) var<storage, read_write> o: array<f32>;
 @compute @workgroup_size(1)
-fn main() { pa[1] = 3.0; o[0] = pa[0] + pa[1]; }`, nil)
-	prog, err := Parse(txt)
-	if err != nil {
+fn main() { pa[1] = 3.0; o[0] = pa[0] + pa[1]; }`
+	txt := compileWGSL(t, src, nil)
+	if _, err := Parse(txt); err != nil {
 		t.Logf("SUSPECT naga: module-scope private arrays are emitted as `static float[2] pa = ...`; HLSL declarators take the dimension after the name (`static float pa[2]`): %v", err)
 		return
 	}
-	_ = prog
+	rc := runCase{wgsl: src, bufs: map[string][]byte{"o": make([]byte, 4)}}
+	bufs, res, _ := rc.run(t)
+	expectNoTraps(t, res)
+	expectU32(t, "o", bufs["o"], fb(4))
 }
